@@ -140,10 +140,10 @@ Proof. vm_compute. repeat split; reflexivity. Qed.
 (* --- non-vacuity: a RUNNING environment with DESTROY hooks at two weights (calls and tasks), a pending
        call and a task whose executor failed is reachable, and its destroy (allow-in-running) succeeds. *)
 Example C06_nonvacuous :
-  let c := mkSpec [0; 1] 0 [mkRole RPlain true 0 false; mkRole (RHookTask false 3%Z) false 0 false;
-                            mkRole (RHookCall false 3%Z) false 0 false; mkRole (RHookTask true (-2)%Z) true 0 false;
-                            mkRole RPend false 0 false; mkRole RPlain false 0 false; mkRole (RLeave 3) false 0 false;
-                            mkRole (RLeave 2) false 0 false] [] in
+  let c := mkSpec [0; 1] 0 [mkRole RPlain true 0 false 0; mkRole (RHookTask false 3%Z) false 0 false 0;
+                            mkRole (RHookCall false 3%Z) false 0 false 0; mkRole (RHookTask true (-2)%Z) true 0 false 0;
+                            mkRole RPend false 0 false 0; mkRole RPlain false 0 false 0; mkRole (RLeave 3) false 0 false 0;
+                            mkRole (RLeave 2) false 0 false 0] [] false in
   let ops := [OCreate 0 c; OControl 0 2 false; OFail [(0, 5)]] in
   let s := run st0 ops in
   valid_hist st0 ops = true /\
